@@ -1,9 +1,10 @@
 import Aldy.Model.Major
 
 /-!
-Evidence filters of the minor stage (`estimate_minor`, minor.py 40-74): the considered-variant
-set and `default_filter_fn` (which, as written, reads the structure of the *last* major
-solution of the call - the loop variable it closes over).
+Evidence filters of the minor stage (`estimate_minor`, minor.py): the considered-variant set
+(pooled over all major solutions of the call) and `default_filter_fn`, built per gene structure
+(`Const.MINOR_FILTER_PER_STRUCTURE`, regenerated: the filter no longer reads the loop variable
+of an earlier loop, i.e. the structure of the *last* candidate).
 -/
 
 namespace Aldy
@@ -16,7 +17,7 @@ def consideredMuts (g : GeneView) (majorSols : List (List String × List Mut)) :
       | some a => a.func ++ a.minors.flatMap (·.neutral)
       | none => []) ++ ms.2) ++ g.randomMuts
 
-/-- `default_filter_fn` with the structure it actually uses -/
+/-- `default_filter_fn(cn_solution)`: `lastCn` is the structure of the candidate group being refined -/
 def minorFilterFn (g : GeneView) (p : ProfileV) (lastCn : CNSol) (considered : List Mut) (c : Cov) (m : Mut) : Cov.FilterRes :=
   let r := g.regionOf m.pos
   let inInteresting := match r with
